@@ -157,6 +157,7 @@ func c04ReadNextBlock(fs *Facts, f *File) {
 	if f == nil || f.Func("FileReader", "readNextBlock") == nil {
 		fs.Tri("shortHeaderIsEOF", Unknown, c01Reader)
 		fs.Tri("boundsCompressedSize", Unknown, c01Reader)
+		fs.Tri("shortPayloadIsEOF", Unknown, c01Reader)
 		return
 	}
 	fd := f.Func("FileReader", "readNextBlock")
@@ -183,6 +184,42 @@ func c04ReadNextBlock(fs *Facts, f *File) {
 	}
 	where := c01Reader + ":" + itoa(f.Line(fd))
 	fs.Tri("shortHeaderIsEOF", TriOf(short), where)
+	// ---- what a cut-short payload means, at both sites
+	// site 1: the size pre-check (if present): its body either returns io.EOF unconditionally, or
+	//         io.EOF only for remaining <= 0 and io.ErrUnexpectedEOF otherwise
+	// site 2: the error of io.ReadFull: mapped (`errors.Is(err, io.ErrUnexpectedEOF)` → io.EOF) or returned as is
+	site1, site2 := "absent", "unknown"
+	for _, is := range c04Ifs(f, fd.Body) {
+		be, isCmp := is.Cond.(*ast.BinaryExpr)
+		if mk != nil && isCmp && be.Op == token.GTR && is.Pos() < mk.Pos() && strings.Contains(f.Str(be.X), "blockHeader.CompressedSize") {
+			b := c29Norm(f, is.Body)
+			switch {
+			case b == "{returnnil,io.EOF}":
+				site1 = "eof"
+			case strings.Contains(b, "ifremaining<=0{returnnil,io.EOF}") && strings.HasSuffix(b, "returnnil,io.ErrUnexpectedEOF}"):
+				site1 = "ueof"
+			default:
+				site1 = "unknown"
+			}
+		}
+		if is.Init != nil && strings.Contains(c29Norm(f, is.Init), "io.ReadFull(fr.file,compressedData)") {
+			b := c29Norm(f, is.Body)
+			switch {
+			case b == "{returnnil,err}":
+				site2 = "ueof"
+			case strings.Contains(b, "iferrors.Is(err,io.ErrUnexpectedEOF){returnnil,io.EOF}") && strings.HasSuffix(b, "returnnil,err}"):
+				site2 = "eof"
+			}
+		}
+	}
+	switch {
+	case site2 == "unknown" || site1 == "unknown":
+		fs.Tri("shortPayloadIsEOF", Unknown, where)
+	case site1 != "absent" && site1 != site2:
+		fs.Tri("shortPayloadIsEOF", Unknown, where) // the two sites disagree
+	default:
+		fs.Tri("shortPayloadIsEOF", TriOf(site2 == "eof"), where)
+	}
 	if mk == nil {
 		fs.Tri("boundsCompressedSize", Unknown, where)
 	} else {
